@@ -27,6 +27,9 @@ BUDGET = {'quick': (36, 30), 'thorough': (1200, 40)}
 SEARCH_BUDGET = {'quick': (150, 30), 'thorough': (1500, 40)}
 
 
+CONC_EXTRA = ('C04', 'C08', 'C09', 'C10', 'C12')
+
+
 def op_json(op):
     return json.loads(json.dumps(op))
 
@@ -166,6 +169,22 @@ def run(pid, tier, out):
         sh, so = SEARCH_BUDGET[tier]
         run_stream(pid, sh, so, seed + 7919, PROFILE[pid], stats, hits)
 
+    # interleavings: two requests on the same entity under enumerated schedules (harness/conc_extra.py, oracle only)
+    cx = {'violations': [], 'stats': {}}
+    if pid in CONC_EXTRA:
+        from harness import conc_extra
+        cx = conc_extra.call(pid, tier)
+        if cx.get('error'):
+            corr_error = (corr_error or '') + ' interleaving stream: %s' % cx['error'][-600:]
+            tie_broken = True
+    seen_cx = set()
+    for v in cx['violations']:
+        key = (v['payload']['scenario']['name'], v['payload']['check'])
+        if key in seen_cx or len(seen_cx) >= 3:
+            continue
+        seen_cx.add(key)
+        v['payload']['broken'] = ps.get('broken') or ('correspondence' if tie_broken else None)
+        out.violation(v['payload'], v['text'])
     reported = 0
     for (i, case, msgs) in hits[:3]:
         op_list = [c[0] for c in case]
@@ -175,7 +194,7 @@ def run(pid, tier, out):
                        'broken': ps.get('broken') or ('correspondence' if tie_broken else None)},
                       '%s' % ((smsgs or msgs)[0]))
         reported += 1
-    if not hits:
+    if not hits and not cx['violations']:
         if proof_broken:
             what = ps['error'] or ('hygiene: %s' % hyg[:5] if hyg else 'translator failed: %s' % tlog[-500:])
             out.violation({'kind': 'proof-broken', 'theorem_or_file': ps.get('broken') or 'Props/%s.v' % pid,
@@ -213,6 +232,9 @@ def run(pid, tier, out):
         'traces_validated_against_impl': len(cases) - len(disagreements) if model_ok and corr_error is None else 0,
         'model_impl_disagreements': len(disagreements), 'correspondence_error': corr_error,
         'oracle_hits': len(hits),
+        'interleaving_stream': dict(cx.get('stats') or {}, violations=len(cx['violations']),
+                                    note='two requests on one entity, gap schedules + DFS enumeration on the real service; '
+                                         'oracle only (not compared with the Coq model)') if pid in CONC_EXTRA else None,
         'status_histogram': {str(k): v for k, v in sorted(stats['status'].items())},
         'op_histogram': dict(stats['ops']),
         'error_fraction': round(sum(v for k, v in stats['status'].items() if k >= 400) / max(1, stats['evaluations']), 3),
@@ -226,6 +248,11 @@ def run(pid, tier, out):
 
 def replay(pid, path, out):
     payload = json.load(open(path))
+    if payload.get('kind') == 'schedule-extra':
+        from harness import conc_extra
+        for v in conc_extra.call(pid, 'quick', replay_path=path)['violations'][:1]:
+            out.violation(v['payload'], v['text'])
+        return
     if payload.get('kind') != 'history':
         # a broken-proof / broken-tie replay: re-run the quick check
         run(pid, 'quick', out)
